@@ -228,6 +228,15 @@ def c_prefix_remainder(ctx, push):
         isinstance(c, ast.Call) and isinstance(c.func, ast.Attribute) and c.func.attr == "startswith" and "prefix" in src(c) for c in ast.walk(i.test))]
     ctx.floor("C18.c.prefix-remainder", STREAM, "prefix recognition in push_chunk", len(pres), 1)
     for i in pres:
+        # the remainder is forwarded whenever it is NON-EMPTY: a test of its content (`rest.strip()`) drops a remainder made of blanks - text of the message
+        for g in [x for st in i.body for x in ast.walk(st) if isinstance(x, ast.If) and any(
+                isinstance(c, ast.Call) and src(c.func) in ("self.push_chunk", "self._process") for st2 in x.body for c in ast.walk(st2))]:
+            calls_on = [c for c in ast.walk(g.test) if isinstance(c, ast.Call) and not (isinstance(c.func, ast.Name) and c.func.id == "len")]
+            okg = not calls_on
+            ctx.check("C18.c.prefix-remainder", STREAM, "StreamingHandler.push_chunk", "the remainder is forwarded whenever it is non-empty", okg,
+                      "the remainder behind the prefix is forwarded unless it is empty" if okg else
+                      "`if %s` decides by the CONTENT of the remainder: a remainder of blanks (the space after the opening quote arriving with the prefix) is dropped, the same text in "
+                      "other tokens keeps it" % first_line(g.test, 40), line=g.lineno)
         direct = [c for st in i.body for c in ast.walk(st) if isinstance(c, ast.Call) and src(c.func) == "self._process"]
         ctx.check("C18.c.prefix-remainder", STREAM, "StreamingHandler.push_chunk", "text behind the prefix in the same token", not direct,
                   "the remainder is fed back through push_chunk (suffix / stop handling applies)" if not direct else
@@ -296,6 +305,16 @@ def a_buffer_remainder_raw(ctx, cls):
                             changed = True
     stores = [n for n in ast.walk(fn) if isinstance(n, ast.Assign) and any(src(tg) == "self.buffer" for tg in n.targets)]
     ctx.floor("C18.a.buffer-remainder-raw", STREAM, "stores of the remaining buffer in wait_top_k_nonempty_lines", len(stores), 1)
+    # split and join must be inverse of each other: `X.split(SEP)` / `SEP.join(...)` with the same SEP; `splitlines()` drops a final newline (and \r), so the re-joined
+    # rest differs from the raw tail exactly when the buffer ended with a line break
+    seps = [src(c.args[0]) for c in ast.walk(fn) if isinstance(c, ast.Call) and isinstance(c.func, ast.Attribute) and c.func.attr == "split" and "buffer" in src(c.func.value) and c.args]
+    lossy = [c for c in ast.walk(fn) if isinstance(c, ast.Call) and isinstance(c.func, ast.Attribute) and c.func.attr == "splitlines" and "buffer" in src(c.func.value)]
+    joins = [src(c.func.value) for st in stores for c in ast.walk(st.value) if isinstance(c, ast.Call) and isinstance(c.func, ast.Attribute) and c.func.attr == "join"]
+    inv = not lossy and (not joins or (bool(seps) and all(j in seps for j in joins)))
+    ctx.check("C18.a.buffer-remainder-raw", STREAM, "StreamingHandler.wait_top_k_nonempty_lines", "split and join of the buffer are inverse", inv,
+              "the buffer is split and re-joined with the same separator (%s)" % sorted(set(seps)) if inv else
+              "the buffer is split with `%s` and the rest re-joined with %s: a line break at the very end of the buffered text is lost, so the stream differs depending on whether the "
+              "newline had already arrived when the first lines were taken" % ("splitlines()" if lossy else seps, joins), line=fn.lineno)
     for st in stores:
         inline = any(isinstance(c, (ast.ListComp, ast.GeneratorExp)) and any(g.ifs for g in c.generators) for c in ast.walk(st.value))
         used = sorted({x.id for x in ast.walk(st.value) if isinstance(x, ast.Name) and x.id in filtered and not any(
